@@ -192,10 +192,12 @@ func vh_C06_defer_args() {
 	i := vhNewInterp()
 	intT := &itype{cat: intT, rtype: vTypeOfKind(int(reflect.Int))}
 	// func p(v int) { <reads v> }
+	var order []int64
 	body := &node{interp: i}
 	body.start = body
 	body.exec = func(f *frame) bltn {
 		vhSeenArg = f.data[0].Int()
+		order = append(order, vhSeenArg)
 		vhSteps++
 		return nil
 	}
@@ -203,31 +205,92 @@ func vh_C06_defer_args() {
 	def := &node{interp: i, kind: funcDecl, typ: &itype{cat: funcT, arg: []*itype{intT}, rtype: reflect.TypeOf(func(int) {})}, types: []reflect.Type{intT.rtype}}
 	def.child = []*node{{interp: i}, {interp: i, ident: "p"}, {interp: i}, blk}
 	def.val = def
-	// the statement "defer p(x)" in a function whose frame slot 0 holds x
-	c0 := &node{interp: i, kind: identExpr, findex: notInFrame, val: def, typ: def.typ}
-	x := &node{interp: i, kind: identExpr, findex: 0, typ: intT}
-	deferN := &node{interp: i, kind: deferStmt}
-	callN := &node{interp: i, kind: callExpr, anc: deferN, child: []*node{c0, x}, typ: def.typ}
-	deferN.child = []*node{callN}
-	c0.anc, x.anc = callN, callN
-	call(callN)
-	f := newFrame(i.frame, 1, i.runid())
+	// the statements "defer p(x)" and "defer p(y)" in a function whose frame slots 0, 1 hold x, y
+	mk := func(slot int) *node {
+		c0 := &node{interp: i, kind: identExpr, findex: notInFrame, val: def, typ: def.typ}
+		x := &node{interp: i, kind: identExpr, findex: slot, typ: intT}
+		deferN := &node{interp: i, kind: deferStmt}
+		callN := &node{interp: i, kind: callExpr, anc: deferN, child: []*node{c0, x}, typ: def.typ}
+		deferN.child = []*node{callN}
+		c0.anc, x.anc = callN, callN
+		call(callN)
+		return callN
+	}
+	d1, d2 := mk(0), mk(1)
+	f := newFrame(i.frame, 2, i.runid())
 	f.data[0] = reflect.New(intT.rtype).Elem()
-	a, b := vNondetInt64("atDefer"), vNondetInt64("later")
+	f.data[1] = reflect.New(intT.rtype).Elem()
+	a, b, c := vNondetInt64("atDefer"), vNondetInt64("later"), vNondetInt64("second")
 	f.data[0].SetInt(a)
+	f.data[1].SetInt(c)
 	vReach("C06.defer.args")
-	callN.exec(f)      // defer p(x)
+	d1.exec(f)          // defer p(x)
 	f.data[0].SetInt(b) // x = b
+	d2.exec(f)          // defer p(y)
+	f.data[1].SetInt(b) // y = b
 	// the function returns: runCfg unwinds the frame
 	end := &node{interp: i}
 	end.exec = func(*frame) bltn { return nil }
 	runCfg(end, f, end, nil)
-	vAssert("C06.defer.runs-once", vhSteps == 1)
+	vAssert("C06.defer.runs-once", vhSteps == 2 && len(order) == 2)
 	vKnown("C06.defer-args-alias-frame-slot", a != b)
-	vAssert("C06.defer.args-fixed", vhSeenArg == a)
+	if len(order) == 2 {
+		// the last registered runs first; each sees the value at its defer statement
+		vAssert("C06.defer.lifo", order[0] == c || order[0] == b)
+		vAssert("C06.defer.args-fixed", order[0] == c && order[1] == a)
+	}
 }
 
-var vhRegistry = map[string]func(){"vh_C06_unwind": vh_C06_unwind, "vh_C06_execute": vh_C06_execute, "vh_C06_reuse": vh_C06_reuse, "vh_C06_defer_args": vh_C06_defer_args, "vh_C06_defer_slice": vh_C06_defer_slice}
+// defer of a compiled (binary) function: "defer hostFn(x); x = b" through the
+// real callBin generator; the deferred call must see the value x had when the
+// defer statement ran. The prepend order is covered by two defers.
+func vh_C06_defer_bin() {
+	vhResetClock()
+	vhStopAt = -1
+	i := vhNewInterp()
+	i.mapTypes = map[reflect.Value][]reflect.Type{}
+	intT := &itype{cat: intT, rtype: vTypeOfKind(int(reflect.Int))}
+	var order []int64
+	host := func(v int) {
+		order = append(order, int64(v))
+		vhSteps++
+	}
+	hv := reflect.ValueOf(host)
+	ft := &itype{cat: valueT, rtype: hv.Type()}
+	mk := func(slot int) *node {
+		c0 := &node{interp: i, kind: identExpr, findex: notInFrame, rval: hv, typ: ft}
+		x := &node{interp: i, kind: identExpr, findex: slot, typ: intT}
+		deferN := &node{interp: i, kind: deferStmt}
+		callN := &node{interp: i, kind: callExpr, anc: deferN, child: []*node{c0, x}, typ: ft}
+		deferN.child = []*node{callN}
+		c0.anc, x.anc = callN, callN
+		callBin(callN)
+		return callN
+	}
+	d1, d2 := mk(0), mk(1)
+	f := newFrame(i.frame, 2, i.runid())
+	f.data[0] = reflect.New(intT.rtype).Elem()
+	f.data[1] = reflect.New(intT.rtype).Elem()
+	a, b, c := vNondetInt64("atDefer"), vNondetInt64("later"), vNondetInt64("second")
+	f.data[0].SetInt(a)
+	f.data[1].SetInt(c)
+	vReach("C06.defer.bin")
+	d1.exec(f)          // defer host(x)
+	f.data[0].SetInt(b) // x = b
+	d2.exec(f)          // defer host(y)
+	f.data[1].SetInt(b) // y = b
+	end := &node{interp: i}
+	end.exec = func(*frame) bltn { return nil }
+	runCfg(end, f, end, nil)
+	vAssert("C06.defer.bin.runs-once", vhSteps == 2 && len(order) == 2)
+	if len(order) == 2 {
+		// last deferred runs first; each sees the value at its defer statement
+		vAssert("C06.defer.bin.lifo", order[0] == c || order[0] == b)
+		vAssert("C06.defer.bin.args-fixed", order[0] == c && order[1] == a)
+	}
+}
+
+var vhRegistry = map[string]func(){"vh_C06_defer_bin": vh_C06_defer_bin, "vh_C06_unwind": vh_C06_unwind, "vh_C06_execute": vh_C06_execute, "vh_C06_reuse": vh_C06_reuse, "vh_C06_defer_args": vh_C06_defer_args, "vh_C06_defer_slice": vh_C06_defer_slice}
 
 var vhIntVars = map[string]*int{"vhMaxSteps": &vhMaxSteps, "vhNExec": &vhNExec}
 
